@@ -103,6 +103,18 @@ def check(repo: Repo, rep: Report) -> None:
         and any(isinstance(l, ast.For) for l in grp_chk[0].ctx.loops if l is not loop.node)
     rep.ob("M3-emission", parse, "check_stopped for every group member before the group is recorded", ok,
            "group members are not checked against a previous terminal marble")
+    from .typestate_common import rule_scheduler_forwarded
+    rep.rule("M6-scheduler-choice", "from_marbles: the scheduler given to from_marbles wins over the subscribe-time one; check_stopped tests membership in a collection of marbles", floor=2)
+    rule_scheduler_forwarded(rep, "M6-scheduler-choice", repo.fn(M, "from_marbles.subscribe"))
+    cs = repo.fn(M, "parse.check_stopped")
+    for s_ in sites(cs):
+        n_ = s_.node
+        if isinstance(n_, ast.Compare) and len(n_.ops) == 1 and isinstance(n_.ops[0], (ast.In, ast.NotIn)):
+            c_ = n_.comparators[0]
+            ok_ = isinstance(c_, (ast.Tuple, ast.List, ast.Set)) and sorted(u(e) for e in c_.elts) == ["'#'", "'|'"]
+            rep.ob("M6-scheduler-choice", cs, f"check_stopped: `{short(n_)}` is membership in the two terminal marbles", ok_,
+                   f"`{short(n_)}` is not a membership test in the collection ('#', '|'): a substring test on a string also accepts the "
+                   f"empty element of a group like `(a,)`, which then counts as a terminal marble")
     me = repo.fn(M, "parse.map_element")
     rets = [s for s in sites(me) if isinstance(s.node, ast.Return)]
     kinds = {}
